@@ -34,7 +34,8 @@ Classical == {29, 23, 24, 25}
 Base == [sc |-> 0, mode |-> "compliant", id |-> "", sni |-> "example.com", ver |-> 0, vmin |-> 0, vmax |-> 0, suite |-> 0, group |-> 0,
          cert |-> "ecdsa", alpn |-> <<>>, force_suite |-> 0, force_group |-> 0, force_alpn |-> "", hrr_cookie |-> 0,
          legacy_only |-> FALSE, canary |-> 0, sid_echo |-> "", compression |-> 0, psk_index |-> 0, hrr_group |-> 0,
-         omit |-> TRUE, remove_sni |-> FALSE, ekm |-> 0]
+         omit |-> TRUE, remove_sni |-> FALSE, ekm |-> 0,
+         alps_cp |-> 0, alps12 |-> FALSE, client_alps |-> "", alps_settings |-> <<>>]
 
 \* ---- the compliant grid (C10, C11, C18): every choice the hello offers and the server can make
 CertKinds(suite, ver) == IF ver = 772 THEN {"ecdsa", "rsa", "ed25519"}
@@ -91,7 +92,14 @@ C13Set == {[Adv(Base) EXCEPT !.id = id, !.ver = v, !.legacy_only = lo, !.canary 
 C17Set == UNION {{[x EXCEPT !.group = g, !.hrr_cookie = ck] : g \in (Offers[x.id].groups \cap Classical) \ Offers[x.id].shares, ck \in {0, 1, 255}}
                  : x \in {y \in Reps : y.ver = 772}}
 
-Scenarios == CASE Mode = "c10" -> C10Set [] Mode = "c12" -> C12Set [] Mode = "c13" -> C13Set [] Mode = "c17" -> C17Set
+\* ---- application settings (C22): ALPS parrots x offered code point x client settings map x ALPN x version
+SRVS == <<83, 82, 86, 83>>
+C22Set == UNION {{[Adv(x) EXCEPT !.alps_cp = cp, !.client_alps = cm, !.alpn = a, !.alps_settings = st, !.alps12 = (x.ver < 772)] :
+                     cp \in Offers[x.id].alps, cm \in {"has", "lacks", "empty"},
+                     a \in {<<"h2">>, <<"http/1.1">>, <<>>}, st \in {SRVS, <<>>}}
+                 : x \in {y \in Reps : Offers[y.id].alps # {}}}
+
+Scenarios == CASE Mode = "c10" -> C10Set [] Mode = "c12" -> C12Set [] Mode = "c13" -> C13Set [] Mode = "c17" -> C17Set [] Mode = "c22" -> C22Set
 
 \* ------------------------------------------------------------ abstract server messages
 X(t, b) == [bad |-> FALSE, type |-> t, body |-> b]
@@ -115,7 +123,8 @@ MkSH(x, o, v) == [ok |-> TRUE, vers |-> IF v = 772 THEN 771 ELSE v,
                   exts |-> IF v = 772 THEN <<X(43, U16(772)), X(51, U16(SrvGroup(x)) \o <<0,1,9>>)>>
                                            \o (IF x.psk_index # 0 THEN <<X(41, U16(x.psk_index - 1))>> ELSE <<>>)
                            ELSE (IF SrvALPN(x, o) \notin {<<>>, <<0>>} THEN <<X(16, Vec16(Vec8(SrvALPN(x, o))))>> ELSE <<>>)]
-MkEE(x, o) == IF SrvALPN(x, o) \notin {<<>>, <<0>>} THEN <<X(16, Vec16(Vec8(SrvALPN(x, o))))>> ELSE <<>>
+MkEE(x, o) == (IF SrvALPN(x, o) \notin {<<>>, <<0>>} THEN <<X(16, Vec16(Vec8(SrvALPN(x, o))))>> ELSE <<>>)
+              \o (IF x.alps_cp # 0 THEN <<X(x.alps_cp, x.alps_settings)>> ELSE <<>>)
 
 \* ------------------------------------------------------------ the walk
 VARIABLES scn, phase, o, hrr, hrrSeen, sh, must
@@ -168,6 +177,8 @@ CompliantCompletes == (scn.mode = "compliant" /\ Terminal) => phase = "done"
 DeviationDetected == (Mode = "c12" /\ Terminal) => phase # "done"
 \* C17: a valid HRR leads to completion
 HRRCompletes == (Mode = "c17" /\ Terminal) => (phase = "done" /\ hrrSeen)
+\* C22: application settings are accepted exactly when TLS 1.3 and an ALPN protocol were negotiated
+ALPSRule == (Mode = "c22" /\ Terminal /\ SHVersion(sh) = 772) => (phase = "done" <=> SrvALPN(scn, o) \notin {<<>>, <<0>>})
 
 Emit == Terminal => PrintT(<<"SCN", ToJson([scn EXCEPT !.sc = 0] @@ [expect |-> phase, why |-> must])>>)
 
